@@ -159,6 +159,7 @@ func ZZ_C14_store_collapsing_copy() {
 	zzvCover("pre-state")
 	zzvAssert("copy-equal", zzSameDense(dc, &pre))
 	zzvAssert("copy-inv", ZZInv(cp))
+	zzvAssert("copy-shares-no-memory-with-original", zzvDisjoint(s, cp))
 	i := zzIdx("i")
 	zzvAssume(zzvAnd(i >= d.minIndex-6, i <= d.maxIndex+6))
 	c := zzWPos("c")
